@@ -44,11 +44,26 @@ def hygiene():
             bad.append("%s: %s" % (os.path.relpath(p, LEAN), m.group(0).strip()))
     return bad
 
+def modules_of(pid):
+    """Properties/<pid>*.lean (e.g. C02.lean, C02Parse.lean)"""
+    d = os.path.join(LEAN, "Properties")
+    out = []
+    for f in sorted(os.listdir(d)):
+        if f.endswith(".lean") and re.match(r"^%s([A-Z][A-Za-z]*)?\.lean$" % pid, f):
+            out.append(f[:-5])
+    return out
+
 def theorems_of(pid):
-    p = os.path.join(LEAN, "Properties", pid + ".lean")
-    if not os.path.exists(p): return []
-    code = strip_comments(open(p).read())
-    return re.findall(r"^\s*theorem\s+([A-Za-z0-9_.']+)", code, re.M)
+    res = []
+    for m in modules_of(pid):
+        src = open(os.path.join(LEAN, "Properties", m + ".lean")).read()
+        code = strip_comments(src)
+        ns = re.findall(r"^\s*namespace\s+([A-Za-z0-9_.]+)", code, re.M)
+        prefix = (ns[0] + ".") if ns else ""
+        for t in re.findall(r"^\s*theorem\s+([A-Za-z0-9_.']+)", code, re.M):
+            if t.startswith(pid + "_"):
+                res.append((m, prefix + t))
+    return res
 
 def run(pid, thorough=False):
     res = dict(obligations=0, discharged=0, theorems=[], axioms={}, broken=[], log="", tables={},
@@ -66,12 +81,15 @@ def run(pid, thorough=False):
     p = subprocess.run(["lake", "build"], cwd=LEAN, capture_output=True, text=True)
     res["log"] = (p.stdout + p.stderr)[-8000:]
     full_ok = p.returncode == 0
-    thms = theorems_of(pid)
+    thm_pairs = theorems_of(pid)
+    thms = [t for _, t in thm_pairs]
+    mods = modules_of(pid)
     res["theorems"] = thms
+    res["modules"] = mods
     res["obligations"] = len(thms) + 1   # + the table equalities / model build
     if not full_ok:
         # which part is broken?  the property module itself, or something else
-        q = subprocess.run(["lake", "build", "Properties." + pid], cwd=LEAN, capture_output=True, text=True)
+        q = subprocess.run(["lake", "build"] + ["Properties." + m for m in mods], cwd=LEAN, capture_output=True, text=True)
         d = subprocess.run(["lake", "build", "drv"], cwd=LEAN, capture_output=True, text=True)
         if q.returncode != 0:
             m = re.findall(r"error: ([^\n]*)", q.stdout + q.stderr)
@@ -89,7 +107,7 @@ def run(pid, thorough=False):
     discharged = 0
     if full_ok and thms:
         with tempfile.NamedTemporaryFile("w", suffix=".lean", delete=False, dir=os.environ.get("VERIF_SCRATCH", "/tmp")) as f:
-            f.write("import Properties.%s\n" % pid)
+            for m in mods: f.write("import Properties.%s\n" % m)
             for t in thms:
                 f.write("#print axioms %s\n" % t)
             tmp = f.name
@@ -118,10 +136,12 @@ def run(pid, thorough=False):
         discharged += 1
     res["discharged"] = discharged
     if thorough and full_ok:
-        c = subprocess.run(["lake", "env", "leanchecker", "Properties." + pid], cwd=LEAN, capture_output=True, text=True)
-        res["leanchecker"] = "ok" if c.returncode == 0 else (c.stdout + c.stderr)[-500:]
-        if c.returncode != 0:
-            res["broken"].append("leanchecker rejects Properties.%s" % pid)
+        res["leanchecker"] = {}
+        for m in mods:
+            c = subprocess.run(["lake", "env", "leanchecker", "Properties." + m], cwd=LEAN, capture_output=True, text=True)
+            res["leanchecker"][m] = "ok" if c.returncode == 0 else (c.stdout + c.stderr)[-500:]
+            if c.returncode != 0:
+                res["broken"].append("leanchecker rejects Properties.%s" % m)
         res["checker_cmd"] += " && lake env leanchecker Properties.%s" % pid
     res["lean_wall_s"] = round(time.time() - t0, 1)
     return res
